@@ -161,8 +161,10 @@ def run_scenario(evs, loopback=True):
                 await sim.sleep_until(t0 + dt)
                 sim.randoms['mcast_delay'] = [r]
                 sim.randoms['tc_delay'] = [tcd]
-                if kind in ('ptr', 'ptr-known', 'tc'):
-                    data = build_query([(T, 12, False)], known=[ptr_x] if kind == 'ptr-known' else [], tc=(kind == 'tc'), ident=ident)
+                if kind in ('ptr', 'ptr-known', 'tc', 'tc-known-y'):
+                    ptr_y = cachesim.rec('KPointer', T, 12, 1, alias=YN, ttl=4500)
+                    data = build_query([(T, 12, False)], known=[ptr_x] if kind == 'ptr-known' else ([ptr_y] if kind == 'tc-known-y' else []),
+                                       tc=kind.startswith('tc'), ident=ident)
                 elif kind == 'srv':
                     data = build_query([(XN, 33, False)], ident=ident)
                 elif kind == 'a':
@@ -225,15 +227,17 @@ def oracle_scenario(log, esc):
             g_data, g_t, g_src = data, t, src
     for i, (_, t, kind, src, r, tcd, data) in enumerate(queries):
         dropped, other_source_dup = verdict[i]
-        if dropped or kind == 'tc':
+        if dropped or kind.startswith('tc'):
             continue
         # a TC train in progress from this source is answered together with this query - still within this query's windows
         want = {'ptr': [px, py], 'ptr-known': [py], 'multi': [px, py], 'srv': [('DNSService', XN.lower(), 33, HN.lower())],
                 'a': [('DNSAddress', HN.lower(), 1, '')]}[kind]
         # a truncated train from the same source still on hold: this query ends the hold and is answered together with the
         # deferred packets as ONE assembled query (several questions, so not an "at once" case)
-        in_train = any(q[2] == 'tc' and q[3] == src and 0 <= t - q[1] <= tc_hold(q)
+        in_train = any(q[2].startswith('tc') and q[3] == src and 0 <= t - q[1] <= tc_hold(q)
                        for q in queries[:i])
+        if any(q[2] == 'tc-known-y' and q[3] == src and 0 <= t - q[1] <= tc_hold(q) for q in queries[:i]):
+            want = [w for w in want if w != py]        # the waiting packet of the train lists it as a known answer
         for ident in want:
             last = [s for s in sightings(ident, t) if s < t or (s == t and False)]
             protected = bool(last) and t - max(last) < 1000
@@ -261,7 +265,7 @@ def oracle_scenario(log, esc):
                     tj, kj = q[1], q[2]
                     if j == i or tj > s_ or verdict[j][0]:
                         return False
-                    if kj == 'tc' or any(q2[2] == 'tc' and q2[3] == q[3] and 0 <= tj - q2[1] <= tc_hold(q2) for q2 in queries[:j]):
+                    if kj.startswith('tc') or any(q2[2].startswith('tc') and q2[3] == q[3] and 0 <= tj - q2[1] <= tc_hold(q2) for q2 in queries[:j]):
                         return True
                     asks = {'ptr': (px, py), 'ptr-known': (py,), 'multi': (px, py), 'srv': (('DNSService', XN.lower(), 33, HN.lower()),),
                             'a': (('DNSAddress', HN.lower(), 1, ''),)}[kj]
@@ -274,6 +278,15 @@ def oracle_scenario(log, esc):
                     return s_ == tj if kj in ('srv', 'a') else tj + 20 <= s_ <= tj + 500
                 if not any(owes(j, q) for j, q in enumerate(queries)):
                     return f"query {kind} at +{t}: {ident} multicast at +{s_}, earlier than +{lo}"
+    # a truncated query and its continuation from the same source are answered ONCE, with the union of their known answers: the first packet
+    # lists one pointer as known, the continuation (inside the hold) the other - neither is multicast as an answer (when that is all the traffic)
+    if len(queries) == 2 and queries[0][2] == 'tc-known-y' and queries[1][2] == 'ptr-known' and queries[0][3] == queries[1][3] \
+            and 0 < queries[1][1] - queries[0][1] < tc_hold(queries[0]) and not verdict[1][0]:
+        for s_, _, _, ans in mc:
+            for ident in (px, py):
+                if ident in ans and s_ >= queries[0][1]:
+                    return (f"truncated query at +{queries[0][1]} (knows {YN}) and its continuation at +{queries[1][1]} (knows {XN}) from one source: "
+                            f"{ident[3]} multicast at +{s_} although the assembled query lists it as a known answer")
     # TC: nothing answered on behalf of a truncated query before the 400 ms hold is over (when it is the only traffic)
     if len(queries) == 1 and queries[0][2] == 'tc':
         t = queries[0][1]
@@ -322,6 +335,8 @@ def run(ctx):
     corpus = [[(0, 'ptr', '10.0.0.8', 57, 500, 0), (999, 'ptr', '10.0.0.7', 57, 400, 0), (1199, 'ptr', '10.0.0.8', 20, 400, 0)]]
     # the one-second protection meets the "answered at once" types: a single SRV / A question less than a second after the record was seen
     # (as the answer to the same question from another host, or as an additional of a pointer answer)
+    for gap in (60, 250, 390):
+        corpus.append([(0, 'tc-known-y', '10.0.0.7', 57, 400, 5), (gap, 'ptr-known', '10.0.0.7', 57, 450, 6)])
     for first, gap, second in (('srv', 200, 'srv'), ('a', 500, 'a'), ('ptr', 400, 'srv'), ('ptr', 999, 'a'), ('srv', 999, 'srv'), ('ptr', 1200, 'a')):
         corpus.append([(0, first, '10.0.0.8', 57, 450, 0), (gap, second, '10.0.0.7', 57, 450, 0)])
     for k in range(n_sc + len(corpus)):
